@@ -6,5 +6,8 @@ CONSTANTS
   SampleDen = 29
   SampleRes = 0
   Depth2On = TRUE
+  PrimeMax = 6000
+  BlueMax = 260
+  BothKinds = FALSE
 INVARIANT TreeInv
 CHECK_DEADLOCK FALSE
